@@ -25,6 +25,6 @@ fn deref_mut() { let mut a = UniqueArc::new(1u32);
     let n: &u32 = &*a; //~ E0502 | let n = ();
     *m = 2; }
 fn offset_make_mut() { let mut a = Arc::into_raw_offset(Arc::new(1u32));
-    let m = a.make_mut();
+    let m = triomphe::OffsetArc::make_mut(&mut a);
     let n = a.clone(); //~ E0502 | let n = ();
     *m = 2; }
